@@ -290,7 +290,12 @@ def stage_shared_slots(ctx):
     owner = {}                                           # slot -> (call, value digest)
     pairs = []
     per_slot_family = {}
-    for c in calls:
+    # after the generated calls, a long run of cheap calls on distinct cells (fills and overflows bounded caches)
+    from lib import refids as _refids
+    bulk_first = _refids.enc(9, ctx.shard % 12, ctx.shard % 5, 0)
+    bulk = [["cell_to_lonlat", bulk_first + i * (1 << 42)] for i in range(6000 if ctx.tier == "quick" else 30000)]
+    restores = {}
+    for c in calls + bulk:
         forkoracle.api_result(c)
         for slot, old, new in tr.diff():
             prev = owner.get(slot)
@@ -299,7 +304,15 @@ def stage_shared_slots(ctx):
                 if per_slot_family.get(fam, 0) < (2 if ctx.tier == "quick" else 6):
                     per_slot_family[fam] = per_slot_family.get(fam, 0) + 1
                     pairs.append((prev[0], c, slot))
-            owner[slot] = (c, new)
+                    if new == "<deleted>":
+                        # the state just before c ran (c emptied/evicted entries): restored before every trial
+                        cp = sharedstate.container_path(slot)
+                        if cp in tr.previous:
+                            restores[(repr(prev[0]), repr(c), slot)] = tr.previous[cp]
+            if new == "<deleted>":
+                owner.pop(slot, None)
+            else:
+                owner[slot] = (c, new)
     # container slots (list index / dict key collisions) first, scalar attributes (counters and the like) last
     pairs.sort(key=lambda p: ("__dict__" in p[2], ))
     ctx.col.count("shared_slots_written", len(owner))
@@ -315,7 +328,14 @@ def stage_shared_slots(ctx):
             if budget <= 0:
                 break
             # preemption points: every line A executes in the functions that refer to the slot's container by name
-            forkoracle.api_result(A)
+            rst = restores.get((repr(X), repr(Y), slot)) if (A, B) == (X, Y) else None
+
+            def put_back():
+                if rst is not None:
+                    sharedstate.restore(rst[0], rst[1])      # the state in which Y evicted X's entry
+                else:
+                    forkoracle.api_result(A)                 # A's values are in the shared slots again
+            put_back()
             nA, _, _ = sched.run_preempted(_mk(A), None, -1, False, only_codes=codes)
             # serial references once per pair (either order), then one warm-up + one trial per preemption point
             _, a1, b1 = trial_in_process((A, B, -1, False, "serial_ab"))
@@ -324,10 +344,16 @@ def stage_shared_slots(ctx):
                 if budget <= 0:
                     break
                 budget -= 1
-                forkoracle.api_result(A)                 # A's values are in the shared slots again
+                put_back()
                 n, ta, (tb, where, fired) = sched.run_preempted(_mk(A), _mk(B), k, False, only_codes=codes)
                 case = {"A": A, "B": B, "k": k, "cold": False, "opcodes": False, "sys": True, "slot": slot, "accessor": name}
                 if fired and (ta not in (a1, a2) or tb not in (b1, b2)):
+                    if rst is not None:
+                        # the trial depends on a cache state reached after thousands of calls: report it as observed
+                        raise Violation("A_differs_under_preemption" if ta not in (a1, a2) else "B_differs_inside_A",
+                                        dict(case, needs_state="cache state just before B evicted A's entry (reached after a long run of calls)"),
+                                        observed=_short(ta if ta not in (a1, a2) else tb), expected=_short(a1 if ta not in (a1, a2) else b1),
+                                        note=f"preempted at {where}; slot {slot}")
                     judge(case, ctx.col)                 # re-judge from scratch: raises the Violation with full context
                     ctx.col.count("slot_sweep_mismatch_not_reproduced")
                 ctx.col.case(case, nontrivial=fired and 0 < k, classes=("shared_slot_sweep", "fired_inside" if fired else "not_fired"))
